@@ -16,7 +16,21 @@ import (
 	"time"
 )
 
-const Root = "/verif"
+// Root is the verification tree (VERIF_ROOT overrides it for isolated scratch copies).
+var Root = func() string {
+	if v := os.Getenv("VERIF_ROOT"); v != "" {
+		return v
+	}
+	return "/verif"
+}()
+
+// Repo is the repository under verification (VERIF_REPO overrides it for scratch copies).
+var Repo = func() string {
+	if v := os.Getenv("VERIF_REPO"); v != "" {
+		return v
+	}
+	return "/repo"
+}()
 
 func Tier() string {
 	if t := os.Getenv("VERIF_TIER"); t == "thorough" {
